@@ -68,9 +68,10 @@ def sh(cmd, cwd=None, timeout=900):
 
 def main():
     flt = sys.argv[1] if len(sys.argv) > 1 else ""
+    flts = flt.split(",") if flt else []
     rows = []
     for name, f, old, new, checks in MUTANTS:
-        if flt and flt not in name:
+        if flts and not any(f in name for f in flts):
             continue
         path = os.path.join(REPO, f)
         src = open(path).read()
@@ -79,11 +80,17 @@ def main():
             continue
         open(path, "w").write(src.replace(old, new))
         try:
-            rc, out = sh("/venv/bin/python -m pytest -q -x -p no:cacheprovider 2>&1 | tail -1", cwd=REPO)
+            try:
+                rc, out = sh("timeout 150 /venv/bin/python -m pytest -q -x -p no:cacheprovider 2>&1 | tail -1", cwd=REPO, timeout=200)
+            except subprocess.TimeoutExpired:
+                out = ""
             tests = "tests pass" if " passed" in out and "failed" not in out else "KILLED-BY-TESTS"
             res = []
             for c in checks:
-                rc, out = sh(f"./check {c} --seed 1", cwd=VERIF)
+                try:
+                    rc, out = sh(f"./check {c} --seed 1", cwd=VERIF, timeout=600)
+                except subprocess.TimeoutExpired:
+                    out = "VIOLATION timeout"
                 line = [l for l in out.split("\n") if l.startswith("VIOLATION")]
                 kind = "caught" if any("no-failing-input-found" not in l for l in line) else ("caught(nfi)" if line else "MISSED")
                 res.append(f"{c}:{kind}")
